@@ -64,6 +64,12 @@ type Step struct {
 	J     int       `json:"j,omitempty"`
 	Dur   string    `json:"dur,omitempty"`
 	Opts  *AttachOp `json:"opts,omitempty"`
+	Sub   []Step    `json:"sub,omitempty"` // op "par": the steps that run concurrently (I = schedule seed)
+	// Sched is the schedule of a parallel section as it was decided (one entry per
+	// decision: "<task>@<yield point>", "tick+<n>ms", "<task>!announce"). A replay follows
+	// it; entries naming a task that is gone are skipped, and after its end the seeded
+	// scheduler decides again.
+	Sched []string `json:"sched,omitempty"`
 }
 
 // AttachOp are the options of one Attach call.
@@ -76,6 +82,7 @@ type AttachOp struct {
 }
 
 func (s Step) String() string {
+	s.Sched = nil
 	b, _ := json.Marshal(s)
 	return string(b)
 }
